@@ -9,14 +9,25 @@ SPEC ([spec_call]) and IMPL-MODEL ([impl_call]) evaluated with vm_compute, (c) i
 Python oracles (hashlib, base64, bytes.decode(errors="replace"), json).  Compared: value
 canonically (strings as code points, numbers as doubles), error vs value coarsely.
 Hash functions have NO Coq model: tied to hashlib only (exploration level for that clause).
+
+Second part (C11/ModelMore.v, ProofsMore.v, PropertiesMore.v, PinsMore.v; Gen/GenStr.v from translator/gens/strfuns.py):
+byte-level impl-models of asciiUpper/Lower, equalsIgnoreCase, isEmpty, length, stringChars, the strip family with its
+guards, trim, strReplace, escapeStringBash/Dollars/XML/Json/Python, parseInt/Octal/Hex, resolvePath, driven by the
+tables and constants regenerated from the source; the kinds of KINDS2 are judged through [spec_call2]/[impl_call2].
+The text the CODE's escapers return is additionally handed to independent consumers (a real `sh`, xml.etree, `$$`
+folding, Python json) which must give the argument back.
 """
 import base64
 import hashlib
 import json
+import os
+import shutil
+import subprocess
+import tempfile
 
 from vlib import core
 
-IMPORTS = ("From Coq Require Import List ZArith NArith.\nFrom JrV Require Import Common.Utf8 C11.Model.\n"
+IMPORTS = ("From Coq Require Import List ZArith NArith.\nFrom JrV Require Import Common.Utf8 C11.Model C11.ModelMore.\n"
            "Import ListNotations.\n")
 
 ALPHA = ["a", "b", "A", " ", "\n", "\u00e9", "\u00df", "\u4e16", "\U0001F600", "\u0301", "\ufffd"]
@@ -25,8 +36,20 @@ ALPHA2 = ALPHA + ["z", "Z", "@", "[", "`", "{", "'", '"', "$", "<", ">", "&", "\
                   "\r", "\x0c", "\x0b", "\u0085", "\u00a0", "\u2003", "\ud7ff", "\ue000", "\U0010FFFF", "\x80",
                   "\u00c9", "\u212a", "\u0130", "\u017f"]
 SMALL = ["a", "é", "\U0001F600"]
+# hostile alphabet of the second part (ModelMore.v): NUL, DEL, C1 controls, quotes, backslash, `$`, markup characters,
+# surrogate-range neighbours, the last BMP / first astral / last scalar value, combining marks, and the characters whose
+# Unicode case mappings are special (sharp s, dotted / dotless i, long s, Kelvin sign, ligature ff)
+HOSTILE = ["a", "z", "A", "Z", "@", "[", "`", "{", "k", "K", "s", "i", "I", "\x00", "\x01", "\x1f", " ", "\t", "\n", "\r",
+           "\x7f", "\x80", "\x85", "\x9f", "\xa0", "'", '"', "\\", "$", "<", ">", "&", ";", "#", "/", "-", "+",
+           "\u00df", "\u00e9", "\u00c9", "\u0130", "\u0131", "\u017f", "\u212a", "\ufb00", "\u0301", "\u0300", "\u200d",
+           "\u07ff", "\u0800", "\ud7ff", "\ue000", "\ufffd", "\ufffe", "\uffff", "\U00010000", "\U0001F600", "\U0010FFFF",
+           "\u4e16"]
+ESC_ALPHA = ["'", '"', "$", "<", ">", "&", "\\", "a", "\u00e9", "\n", "\x7f", "\x00", "\U0001F600", ";", "\x9f"]
+CASE_EDGE = ["@", "A", "Z", "[", "`", "a", "z", "{", "K", "k", "\u212a", "s", "\u017f", "I", "i", "\u0130", "\u0131",
+             "\u00df", "\u00c0", "\u00e0", "\x00", " ", "\x7f"]
 ERR = ("ERR",)
 K_SPLIT = "C11-split-empty-separator-accepted"
+K_JSON = "C11-escapeStringJson-del-c1-raw"
 
 
 def cps(s):
@@ -100,8 +123,9 @@ KINDS = {
     "b64dec": (lambda s: f"std.base64Decode({J(s)})", lambda s: f"CB64Dec {cq_str(s)}"),
     "b64decbytes": (lambda s: f"std.base64DecodeBytes({J(s)})", lambda s: f"CB64DecBytes {cq_str(s)}"),
     # python-oracle only
-    "escjson": (lambda s: f"std.escapeStringJson({J(s)})", None),
-    "escpython": (lambda s: f"std.escapeStringPython({J(s)})", None),
+    "escjson": (lambda s: f"std.escapeStringJson({J(s)})", lambda s: f"C2EscJson {cq_str(s)}"),
+    "escpython": (lambda s: f"std.escapeStringPython({J(s)})", lambda s: f"C2EscJson {cq_str(s)}"),
+    "resolvepath": (lambda f, r: f"std.resolvePath({J(f)}, {J(r)})", lambda f, r: f"C2Resolve {cq_str(f)} {cq_str(r)}"),
     "md5": (lambda s: f"std.md5({J(s)})", None),
     "sha1": (lambda s: f"std.sha1({J(s)})", None),
     "sha256": (lambda s: f"std.sha256({J(s)})", None),
@@ -115,6 +139,24 @@ KINDS = {
     "rt_b64bytes": (lambda bs: f"std.base64DecodeBytes(std.base64({jarr(bs)}))", None),
 }
 
+# second part: the same calls judged through ModelMore.v ([spec_call2] is [spec_call] on these, [impl_call2] is the
+# byte-level impl-model driven by Gen/GenStr.v); kinds listed here are rendered as [call2] constructors
+KINDS2 = {
+    "upper": lambda s: f"C2Upper {cq_str(s)}", "lower": lambda s: f"C2Lower {cq_str(s)}",
+    "eqic": lambda a, b: f"C2EqIc {cq_str(a)} {cq_str(b)}", "isempty": lambda s: f"C2IsEmpty {cq_str(s)}",
+    "length": lambda s: f"C2Length {cq_str(s)}", "chars": lambda s: f"C2Chars {cq_str(s)}",
+    "lstrip": lambda s, c: f"C2Lstrip {cq_str(s)} {cq_str(c)}", "rstrip": lambda s, c: f"C2Rstrip {cq_str(s)} {cq_str(c)}",
+    "strip": lambda s, c: f"C2Strip {cq_str(s)} {cq_str(c)}", "stripa": lambda s, c: f"C2Strip {cq_str(s)} {cq_str(c)}",
+    "trim": lambda s: f"C2Trim {cq_str(s)}",
+    "replace": lambda s, f, t: f"C2Replace {cq_str(s)} {cq_str(f)} {cq_str(t)}",
+    "escbash": lambda s: f"C2EscBash {cq_str(s)}", "escdollars": lambda s: f"C2EscDollars {cq_str(s)}",
+    "escxml": lambda s: f"C2EscXml {cq_str(s)}",
+    "escjson": lambda s: f"C2EscJson {cq_str(s)}", "escpython": lambda s: f"C2EscJson {cq_str(s)}",
+    "parseint": lambda s: f"C2ParseInt {cq_str(s)}", "parseoctal": lambda s: f"C2ParseOctal {cq_str(s)}",
+    "parsehex": lambda s: f"C2ParseHex {cq_str(s)}",
+    "resolvepath": lambda f, r: f"C2Resolve {cq_str(f)} {cq_str(r)}",
+}
+
 HASHES = {"md5": hashlib.md5, "sha1": hashlib.sha1, "sha256": hashlib.sha256, "sha512": hashlib.sha512,
           "sha3": hashlib.sha3_512}
 
@@ -124,8 +166,20 @@ def case_js(c):
 
 
 def case_coq(c):
+    if c[0] in KINDS2:
+        return KINDS2[c[0]](*c[1:])
     f = KINDS[c[0]][1]
     return None if f is None else f(*c[1:])
+
+
+def case_coq_pair(c):
+    """the Gallina pair (SPEC answer, IMPL-MODEL answer) of a case"""
+    q = case_coq(c)
+    if q is None:
+        return None
+    if c[0] in KINDS2:
+        return f"(spec_call2 ({q}), impl_call2 ({q}))"
+    return f"(spec_call ({q}), impl_call ({q}))"
 
 
 # ------------------------------------------------------------------ python oracles
@@ -183,9 +237,58 @@ def py_oracle(c):
     raise KeyError(k)
 
 
+JSON_SHORT = {'"': '\\"', "\\": "\\\\", "\b": "\\b", "\f": "\\f", "\n": "\\n", "\r": "\\r", "\t": "\\t"}
+
+
+def ref_json_escape(s, raw_del_c1=False):
+    """std.jsonnet's escapeStringJson, written independently of the Coq SPEC; raw_del_c1 = what jrsonnet does
+    (the known finding): U+007F..U+009F are copied instead of being written as \\u00XX"""
+    out = ['"']
+    for ch in s:
+        cp = ord(ch)
+        if ch in JSON_SHORT:
+            out.append(JSON_SHORT[ch])
+        elif cp < 32 or (127 <= cp <= 159 and not raw_del_c1):
+            out.append("\\u%04x" % cp)
+        else:
+            out.append(ch)
+    return "".join(out) + '"'
+
+
+XML_ENT = {"<": "&lt;", ">": "&gt;", "&": "&amp;", '"': "&quot;", "'": "&apos;"}
+TRIM_WS = " \t\n\x0c\r\u0085\u00a0"
+
+
+def ascii_lower(s):
+    return "".join(chr(ord(x) + 32) if "A" <= x <= "Z" else x for x in s)
+
+
 def py_cross(c):
     """independent second opinion on the Coq SPEC for a few kinds (None = no opinion)"""
     k = c[0]
+    if k in ("escjson", "escpython"):
+        return ref_json_escape(c[1])
+    if k == "escxml":
+        return "".join(XML_ENT.get(ch, ch) for ch in c[1])
+    if k == "escbash":
+        return "'" + c[1].replace("'", "'\"'\"'") + "'"
+    if k == "escdollars":
+        return c[1].replace("$", "$$")
+    if k == "resolvepath":
+        i = c[1].rfind("/")
+        return c[2] if i < 0 else c[1][:i + 1] + c[2]
+    if k == "isempty":
+        return c[1] == ""
+    if k == "eqic":
+        return ascii_lower(c[1]) == ascii_lower(c[2])
+    if k == "chars":
+        return list(c[1])
+    if k in ("lstrip", "rstrip", "strip", "stripa"):
+        if not c[2]:
+            return c[1]
+        return {"lstrip": c[1].lstrip, "rstrip": c[1].rstrip, "strip": c[1].strip, "stripa": c[1].strip}[k](c[2])
+    if k == "trim":
+        return c[1].strip(TRIM_WS)
     if k == "decode":
         bs = bytes(c[1])
         if c[2] is False:
@@ -334,6 +437,81 @@ def gen_json(g, d):
     if r < 8:
         return [gen_json(g, d - 1) for _ in range(g.rng.below(4))]
     return {g.s(ALPHA2, 0, 3) + str(i): gen_json(g, d - 1) for i in range(g.rng.below(4))}
+
+
+def more_cases(run, g, add, n_rand, thorough):
+    """second part (ModelMore.v): dense around what an off-by-one / wrong-branch edit of the builtins would move"""
+    R = g.rng
+    # known finding first, so that it is seen to reproduce
+    for s in ["\x7f", "a\u0085", "\x9f\x7f", "\x7e\xa0"]:
+        add(("escjson", s))
+        add(("escpython", s))
+    # ---- escapers: every string of length <= 2 over the characters the escapers look at, random longer ones
+    esc = all_strings(ESC_ALPHA, 2) + [g.s(ESC_ALPHA, 3, 9) for _ in range(n_rand * 2)] + \
+        [g.s(HOSTILE, 1, 6) for _ in range(n_rand)] + [a + b for a in "'$<&\"" for b in HOSTILE[:8]]
+    for s in esc:
+        for k in ("escbash", "escdollars", "escxml", "escjson"):
+            if len(s) <= 1 or R.chance((0.7 if k == "escjson" else 0.5) if not thorough else 1):
+                add((k, s))
+        if R.chance(0.15):
+            add(("escpython", s))
+    # ---- case maps / equalsIgnoreCase: every character next to a case boundary alone and in pairs (0x20 apart!)
+    for a in CASE_EDGE + HOSTILE:
+        for k in ("upper", "lower", "length", "chars", "isempty", "codepoint", "trim"):
+            add((k, a))
+        add(("upper", a + "\u00e9" + a))
+        add(("lower", "\U0001F600" + a))
+    for a in CASE_EDGE:
+        for b in CASE_EDGE:
+            if a <= b or thorough or R.chance(0.25):
+                add(("eqic", a, b))
+            if R.chance(0.15):
+                add(("eqic", "x" + a, "X" + b))
+                add(("eqic", a + "\u00e9", b + "\u00c9"))
+    for _ in range(n_rand * 2):
+        s = g.s(HOSTILE, 0, 7)
+        t = "".join(R.choice([x, x.upper(), x.lower(), x.swapcase()]) if R.chance(0.6) else x for x in s)
+        add(("eqic", s, t[:len(s)]))
+        add(("eqic", s, s + R.choice(["", "a", "\u0301"])))
+        for k in ("upper", "lower", "length", "chars"):
+            add((k, s))
+    for s in ["", "\x00", " ", "\u0301", "\u200d", "\U0010FFFF"]:
+        add(("isempty", s))
+        add(("length", s))
+        add(("chars", s))
+    # ---- strip family: the two guards, sets with repeats, characters that are prefixes of each other in UTF-8
+    sets = ["", "a", "aa", "ab", "\u00e9", "\u00e9\u00e8", "\U0001F600\U0001F601", " \t", "\x00", "a\u0301"]
+    bodies = ["", "a", "b", "aba", "\u00e9a\u00e8", "\u00e8", "\U0001F601x\U0001F600", "a\u0301a", "\x00a\x00", "  a b\t"]
+    for s in bodies:
+        for cs in sets:
+            for k in ("lstrip", "rstrip", "strip"):
+                add((k, s, cs))
+            if cs and R.chance(0.4):
+                add(("stripa", s, cs))
+    ws = [" ", "\t", "\n", "\x0c", "\r", "\u0085", "\u00a0", "\x0b", "\x1c", "\u2028", "\u3000", "\ufeff", "\u1680", "\x00"]
+    for a in ws:
+        for b in ws[:6]:
+            add(("trim", a + "x" + b))
+            add(("trim", a + b))
+    # ---- parseInt sign handling
+    for s in ["-", "", "--1", "-+1", "+1", "-0", "0-", "1-", "\u22121", "-\u0661", "- 1", "-1 ", "-9007199254740991",
+              "-9007199254740992", "-9007199254740993", "-00012", "-a", "a-", "-/", "-:", "0", "-1", "12", "-12", "1-2"]:
+        add(("parseint", s))
+    for s in ["-1", "-", "+7", "7", "17", "18", "08", "0o7", "0x1f", "1f", "-1f", "fg", "Ff", "10", "7_"]:
+        add(("parseoctal", s))
+        add(("parsehex", s))
+    # ---- resolvePath: last '/', none, first, doubled, multi-byte neighbours
+    pa = ["a", "/", "\u00e9", "\U0001F600", "\\", "."]
+    for f in all_strings(pa, 3 if not thorough else 4):
+        if len(f) <= 2 or R.chance(0.35):
+            add(("resolvepath", f, R.choice(["", "x", "/y", "\u00e9", "a/b", ".."])))
+    for f in ["dir/sub/file.jsonnet", "/", "//", "a//", "\u00e9/\u00e9", "a\u2215b", "a/\U0001F600", "noslash", ""]:
+        for r in ["", "r", "/r"]:
+            add(("resolvepath", f, r))
+    # ---- strReplace through the byte-level model: overlapping, multi-byte, empty replacement
+    for s, f, to in [("aaa", "aa", "b"), ("\u00e9\u00e9\u00e9", "\u00e9\u00e9", "\u00e9"), ("a'b'c", "'", "'\"'\"'"), ("$$", "$", "$$"),
+                     ("abc", "abc", ""), ("abc", "abcd", "x"), ("\U0001F600a", "\U0001F600", "a"), ("a\x00b", "\x00", "")]:
+        add(("replace", s, f, to))
 
 
 def enumerate_cases(run, scale=1):
@@ -519,6 +697,7 @@ def enumerate_cases(run, scale=1):
         add(("parsejson", t))
     for t in JSON_BAD:
         add(("parsejson", t))
+    more_cases(run, g, add, n_rand, thorough)
     # dedupe, keep order
     seen, out = set(), []
     for c in cases:
@@ -577,15 +756,73 @@ def show(v):
     return s if len(s) <= 300 else s[:300] + "..."
 
 
+def xml_legal(s):
+    return all(ch in "\t\n" or (0x20 <= ord(ch) <= 0xD7FF) or (0xE000 <= ord(ch) <= 0xFFFD) or ord(ch) >= 0x10000 for ch in s)
+
+
+def consumer_checks(run, items):
+    """independent consumers of the escaped text the CODE returned: POSIX sh quote removal (escapeStringBash), an XML
+    parser (escapeStringXML), `$$` -> `$` (escapeStringDollars).  items: (case dict, kind, argument, code output)."""
+    import xml.etree.ElementTree as ET
+    fails = []
+
+    def bad(case, kind, arg, got, why):
+        fails.append({"case": case, "what": "a consumer of the escaped text does not get the argument back",
+                      "summary": f"C11 {kind}: {case['jsonnet'][:160]} -> {show(got)[:120]}: {why}",
+                      "expected": f"text that {why.split(':')[0]} reads back as the argument", "got": show(got), "why": why})
+    bash = [(c, a, g) for c, k, a, g in items if k == "escbash" and isinstance(g, str) and "\x00" not in g and "\x00" not in a]
+    if bash and shutil.which("sh"):
+        d = tempfile.mkdtemp(dir=core.CACHE)
+        try:
+            env = {"LC_ALL": "C", "PATH": os.environ.get("PATH", "/bin:/usr/bin")}
+
+            def run_sh(words):
+                path = os.path.join(d, "unquote.sh")
+                with open(path, "wb") as f:
+                    f.write(b"".join(b"printf '%s\\0' " + w.encode("utf-8") + b"\n" for w in words))
+                p = subprocess.run(["sh", path], stdout=subprocess.PIPE, stderr=subprocess.PIPE, timeout=120, env=env)
+                return p.returncode, p.stdout.split(b"\0")[:-1]
+            rc, outs = run_sh([g for _, _, g in bash])
+            if rc == 0 and len(outs) == len(bash):
+                results = outs
+            else:  # some word is not a word: one shell per item
+                results = []
+                for _, _, g in bash[:400]:
+                    rc1, o1 = run_sh([g])
+                    results.append(o1[0] if rc1 == 0 and len(o1) == 1 else None)
+            for (case, a, g), o in zip(bash, results):
+                run.count("consumer:sh")
+                if o is None or o != a.encode("utf-8"):
+                    bad(case, "escbash", a, g, f"sh quote removal: gives {o!r}")
+        finally:
+            shutil.rmtree(d, ignore_errors=True)
+    for case, k, a, g in items:
+        if k == "escxml" and isinstance(g, str) and xml_legal(a):
+            run.count("consumer:xml")
+            try:
+                el = ET.fromstring(("<a b=\"" + g + "\" c='" + g + "'>" + g + "</a>").encode("utf-8"))
+                back = el.text or ""
+            except ET.ParseError as e:
+                bad(case, k, a, g, f"an XML parser: rejects the text as content / attribute value ({e})")
+                continue
+            if back != a:
+                bad(case, k, a, g, f"an XML parser: gives {back!r}")
+        if k == "escdollars" and isinstance(g, str):
+            run.count("consumer:dollars")
+            if g.replace("$$", "") .count("$") or g.replace("$$", "$") != a:
+                bad(case, k, a, g, "reading $$ as $: does not give the argument back, or a single $ is left")
+    return fails
+
+
 def correspond(run, binary, cases):
     failures, model_diffs = [], []
     run.log(f"{len(cases)} distinct calls")
     # ---- model side
     exprs, where = [], []
     for i, c in enumerate(cases):
-        q = case_coq(c)
+        q = case_coq_pair(c)
         if q is not None:
-            exprs.append(f"(spec_call ({q}), impl_call ({q}))")
+            exprs.append(q)
             where.append(i)
     # several calls per Eval (a list of pairs): fewer coqc processes, whose start-up dominates
     chunks = [exprs[i:i + CHUNK] for i in range(0, len(exprs), CHUNK)]
@@ -639,7 +876,8 @@ def correspond(run, binary, cases):
     expect_ok = [not (e is None or e == ERR or e == ("INF",)) for e in expect]
     answers, nreq = run_code(run, binary, cases, expect_ok)
     run.log(f"harness done ({nreq} requests)")
-    hits = {K_SPLIT: 0}
+    hits = {K_SPLIT: 0, K_JSON: 0}
+    consume = []
     for i, c in enumerate(cases):
         if expect[i] is None:
             continue
@@ -662,6 +900,18 @@ def correspond(run, binary, cases):
             why = None
             exp_show = show(exp)
         run.count("outcome:error" if got == ERR else "outcome:value")
+        if kind in ("escbash", "escxml", "escdollars"):
+            consume.append((case, kind, c[1], got))
+        if kind in ("escjson", "escpython"):
+            # on top of the comparison with the reference definition: the output must read back through an independent
+            # JSON reader as the argument and hold no raw control character (never excused by the known finding)
+            why2 = py_oracle(c)[1](got) if not isinstance(got, tuple) else f"no value: {got}"
+            if why2:
+                failures.append({"case": case, "what": "escaped text does not read back as the argument",
+                                 "summary": f"C11 {kind}: {js[:160]} -> {show(got)[:120]}: {why2}",
+                                 "expected": "a JSON string literal that reads back as the argument", "got": show(got),
+                                 "why": why2})
+                continue
         if ok:
             if judged_against[i] == "spec" and impl[i] is not None and as_value(impl[i]) != exp and \
                     not (as_value(impl[i]) == ("INF",) and exp == ERR):
@@ -682,7 +932,14 @@ def correspond(run, binary, cases):
         if kind in ("split", "splitlimit", "splitlimitr") and c[2] == "" and exp == ERR and isinstance(got, list):
             f["known"] = K_SPLIT
             hits[K_SPLIT] += 1
+        # DEL / C1 controls left raw by escapeStringJson/Python: exactly the reference output with those (and only
+        # those) characters copied instead of \u00XX-escaped
+        if kind in ("escjson", "escpython") and any(0x7f <= ord(ch) <= 0x9f for ch in c[1]) and \
+                got == ref_json_escape(c[1], raw_del_c1=True):
+            f["known"] = K_JSON
+            hits[K_JSON] += 1
         failures.append(f)
+    failures.extend(consumer_checks(run, consume))
     for kid, n in hits.items():
         run.count(f"known:{kid}", n)
     return failures, model_diffs, hits
@@ -739,13 +996,19 @@ def replay(run, data):
     return 0
 
 
-RULE = ("calls std.<fn>(args) for 45 function entry points; strings over {a, b, A, ' ', '\\n', e-acute, sharp-s, "
+RULE = ("calls std.<fn>(args) for 46 function entry points; strings over {a, b, A, ' ', '\\n', e-acute, sharp-s, "
         "U+4E16, U+1F600, U+0301, U+FFFD} (+ boundary characters for case maps / escapers / trim): all strings of "
         "length <= 2 for the unary functions, all (pattern, string) and (string, separator) pairs over {a, e-acute, "
         "U+1F600} up to length 3 (sampled in quick), random up to length 12 with repeated/overlapping patterns, "
         "from/len/maxsplits 0..len+2, every class of ill-formed UTF-8 bare and embedded, base64 texts with every "
         "padding/trailing-bit/alphabet defect, numeric strings around 2^53, the digit-validity boundaries and "
-        "overflow; distinct = distinct Jsonnet call; non-trivial = some argument non-empty")
+        "overflow; second part: all strings of length <= 2 over {' \" $ < > & \\ a e-acute \\n DEL NUL U+1F600 ; U+009F} for "
+        "the five escapers, every case-boundary character (@ A Z [ ` a z {, Kelvin sign, long s, dotted / dotless i, sharp s) "
+        "alone and in pairs for the case maps / equalsIgnoreCase, strip guards (empty string / empty set) and sets whose "
+        "UTF-8 encodings share prefixes, 14 white-space candidates around trim's set, parseInt sign placements, resolvePath "
+        "over {a / e-acute U+1F600 \\ .} up to length 3, a 59-character hostile alphabet (NUL, DEL, C1, surrogate-range "
+        "neighbours, U+FFFF, U+10000, U+10FFFF, combining marks); "
+        "distinct = distinct Jsonnet call; non-trivial = some argument non-empty")
 TRUSTED = ["Coq 8.16.1 kernel incl. vm_compute (no native_compute)",
            "no axioms (all C11 theorems closed under the global context)",
            "SPEC definitions are my reading of the std documentation / reference std.jsonnet, RFC 3629, RFC 4648 "
@@ -753,7 +1016,11 @@ TRUSTED = ["Coq 8.16.1 kernel incl. vm_compute (no native_compute)",
            "correspondence: jrharness eval, vlib generators, Coq term printer/parser, Python hashlib/base64/json/codecs",
            "modelled not verified: Rust core::str searchers (split/replace/starts_with as leftmost byte search), "
            "f64 mul_add on integer-valued doubles as one rounding to 53 bits (rnd53), the base64 / digest / "
-           "serde_json / serde-saphyr crates (correspondence only)"]
+           "serde_json / serde-saphyr crates (correspondence only)",
+           "translator/gens/strfuns.py (copies the tables / constants / method names it matches into Gen/GenStr.v; fails "
+           "closed on any builtin body it does not recognise)",
+           "second part: sh_unquote / unxml / esc_json_spec are my formalisations of POSIX quote removal, the predefined XML "
+           "entities and std.jsonnet's escapeStringJson (cross-checked every run against /bin/sh, xml.etree, Python)"]
 ASSUMPTIONS = ["impl-model transliterates strings.rs / encoding.rs / misc.rs; tie = differential run on every check",
                "strings hold Unicode scalar values (Rust str invariant)",
                "hash functions: no theorem, hashlib comparison only"]
